@@ -36,6 +36,83 @@ def classify_obj(c):
     morphs = sorted(legs_text(m.get_legs()) for m in cls.get_morphs())
     return f"alg={alg} dim={dim} deps={deps} verts={verts} morphs={';'.join(morphs) if morphs else '-'}"
 
+# ---------------------------------------------------------------- recording builder (C11)
+
+def frame_text(f) -> str:
+    """one frame: title, `@`+vertex list if it carries a graph, `^` if init (mirror of CmdClassify.showFrame)"""
+    g = f.get_graph()
+    t = str(f.get_title())
+    if g is not None:
+        t += "@" + (",".join(v if v else "-" for v in g[0]) if g[0] else "-")
+    if f.get_init():
+        t += "^"
+    return t
+
+def frames_digest(texts) -> str:
+    h = 7
+    for t in texts:
+        for ch in t + "\n":
+            h = (h * 131 + ord(ch)) % 1000000007
+    return f"{len(texts)}:{h}"
+
+def rec_segments(rec):
+    """the frames of a record split into reductions: a new reduction starts at every `init` frame"""
+    segs = []
+    for i in range(rec.get_size()):
+        f = rec.get_frame(i)
+        if f.get_init() or not segs:
+            segs.append([])
+        segs[-1].append(f)
+    return segs
+
+def last_graph(seg):
+    for f in reversed(seg):
+        g = f.get_graph()
+        if g is not None:
+            return sorted((v if v else "-") for v in g[0])
+    return None
+
+class ReductionTimeout(BaseException):
+    """the reduction did not finish within REC_TIMEOUT_S (a `while True` of the recording builder that does not terminate)"""
+
+REC_TIMEOUT_S = 8
+
+def _with_timeout(f):
+    import signal
+    def onalarm(signum, frame):
+        raise ReductionTimeout()
+    old = signal.signal(signal.SIGALRM, onalarm)
+    signal.setitimer(signal.ITIMER_REAL, REC_TIMEOUT_S)
+    try:
+        return f()
+    finally:
+        signal.setitimer(signal.ITIMER_REAL, 0)
+        signal.signal(signal.SIGALRM, old)
+
+def classify_rec(c):
+    from paulie.helpers.recording import RecordGraph
+    rec = RecordGraph()
+    c.set_record(rec)
+    _with_timeout(c.get_class)          # a BaseException: the builders' `except Exception` must not swallow it
+    base = classify_obj(c)
+    segs = rec_segments(rec)
+    parts = []
+    for seg in segs:
+        lg = last_graph(seg)
+        parts.append(("none" if lg is None else (",".join(lg) if lg else "-")) + "@" + frames_digest([frame_text(f) for f in seg]))
+    # the observation named by the property: RecordGraph.get_graph(last index)
+    g = rec.get_graph(rec.get_size() - 1)
+    final = "none" if g is None else (",".join(sorted((v if v else "-") for v in g[0])) if g[0] else "-")
+    return base + " last=" + (";".join(sorted(parts)) if parts else "-") + " final=" + final, rec
+
+def rec_frames(c):
+    from paulie.helpers.recording import RecordGraph
+    rec = RecordGraph()
+    c.set_record(rec)
+    _with_timeout(c.get_class)
+    segs = ["/".join(frame_text(f).replace(" ", "_") for f in seg) for seg in rec_segments(rec)]
+    return "||".join(sorted(segs)) if segs else "-"
+
 def strip_meta(model_out: str) -> str:
     """the model appends ` #lost=.. #tags=..` (not observable on the implementation)"""
     return model_out.split(" #")[0]
@@ -45,6 +122,10 @@ def handle(line: str) -> str:
     try:
         if t[0] == "classify":
             return classify_obj(coll(t[1]))
+        if t[0] == "classifyrec":
+            return classify_rec(coll(t[1]))[0]
+        if t[0] == "recframes":
+            return rec_frames(coll(t[1]))
         if t[0] == "isin":
             return "T" if coll(t[1]).is_in(coll(t[2])) else "F"
         if t[0] == "iseq":
@@ -55,6 +136,8 @@ def handle(line: str) -> str:
         if t[0] == "space":
             r = coll(t[1]).get_space()
             return "None" if r is False else sorted_ps(r)
+    except ReductionTimeout:
+        return "!ReductionTimeout"
     except Exception as e:
         return exc_name(e)
     return "bad-op"
